@@ -5,9 +5,9 @@ from .runner import Job
 def jobs(pid, tier):
     q = tier == 'quick'
     J = []
+    FOA = ['created', 'found_or_eliminated', 'raised']
     if pid == 'C01':
-        J.append(Job('k1_foa', dict(N=4 if q else 6, L=3, K=1),
-                     need_outcomes=['created', 'found_or_eliminated', 'raised']))
+        J.append(Job('k1_foa', dict(N=4 if q else 6, L=3, K=1), need_outcomes=FOA))
         J.append(Job('k2_topcof', dict(N=4 if q else 6, L=3), need_outcomes=['returned', 'raised']))
         J.append(Job('k3_ite', dict(N=3, L=2, K=2) if q else dict(N=4, L=2, K=3),
                      need_outcomes=['created', 'no_new_node']))
@@ -20,14 +20,17 @@ def jobs(pid, tier):
         J.append(Job('k6_autoref_ops', dict(N=5, L=3) if q else dict(N=6, L=3),
                      need_outcomes=['returned:' + o for o in
                                     ('~', '&', '|', 'implies', 'equiv', '<=', '<', '==', '!=', 'ite')]))
-    if pid == 'C06':
-        J.append(Job('k8_gc', dict(N=4, L=2, roots=0, nondet=True), need_outcomes=['collected', 'nothing_to_collect']))
-        J.append(Job('k8_gc', dict(N=5, L=3, roots=0, nondet=not q), need_outcomes=['collected', 'nothing_to_collect']))
-        J.append(Job('k8_gc', dict(N=4, L=3, roots=2, nondet=True), need_outcomes=['collected', 'nothing_to_collect']))
-    if pid == 'C07':
+    if pid == 'C02':
+        J.append(Job('lemma_canon', dict(N=5 if q else 6, L=3), need_outcomes=['lemma']))
+        J.append(Job('k1_foa', dict(N=5 if q else 6, L=3, K=1), need_outcomes=FOA))
         J.append(Job('k7_swap', dict(N=4, L=2, x=0, K=2), need_outcomes=['swapped']))
-        J.append(Job('k7_swap', dict(N=4, L=3, x=0, K=2), need_outcomes=['swapped']))
-        J.append(Job('k7_swap', dict(N=4, L=3, x=1, K=2, by='name'), need_outcomes=['swapped']))
+        J.append(Job('k8_gc', dict(N=4, L=2, roots=0, nondet=True), need_outcomes=['collected']))
+        J.append(Job('k9_undeclare', dict(N=4, L=3), need_outcomes=['removed', 'refused']))
+        J.append(Job('k10_addvar', dict(N=4, L=2), need_outcomes=['added', 'idempotent', 'refused']))
+        if not q:
+            J.append(Job('k7_swap', dict(N=5, L=3, x=0, K=3), need_outcomes=['swapped']))
+            J.append(Job('k8_gc', dict(N=5, L=3, roots=0, nondet=False), need_outcomes=['collected']))
+            J.append(Job('k3_ite', dict(N=3, L=2, K=2), need_outcomes=['created']))
     if pid == 'C03':
         J.append(Job('quant', dict(N=4, L=2), need_outcomes=['returned:' + e for e in
                      ('quantify_names', 'quantify_levels', 'exist_forall', 'apply')]))
@@ -43,11 +46,45 @@ def jobs(pid, tier):
                      need_outcomes=['returned:cofactor', 'returned:compose1', 'returned:rename']))
         if not q:
             J.append(Job('let', dict(N=5, L=3, kinds=['compose2']), need_outcomes=['returned:compose2']))
+    if pid == 'C06':
+        J.append(Job('k8_gc', dict(N=4, L=2, roots=0, nondet=True), need_outcomes=['collected', 'nothing_to_collect']))
+        J.append(Job('k8_gc', dict(N=5, L=3, roots=0, nondet=not q), need_outcomes=['collected', 'nothing_to_collect']))
+        J.append(Job('k8_gc', dict(N=4, L=3, roots=2, nondet=True), need_outcomes=['collected', 'nothing_to_collect']))
+        J.append(Job('refs', dict(N=4, L=2), need_outcomes=['incref', 'decref', 'decref_warned']))
+        J.append(Job('k1_foa', dict(N=4, L=3, K=1), need_outcomes=FOA))
+        J.append(Job('k7_swap', dict(N=4, L=2, x=0, K=2), need_outcomes=['swapped']))
+        J.append(Job('k3_ite', dict(N=3, L=2, K=2), need_outcomes=['created', 'no_new_node']))
+    if pid == 'C07':
+        J.append(Job('k7_swap', dict(N=4, L=2, x=0, K=2), need_outcomes=['swapped']))
+        J.append(Job('k7_swap', dict(N=4, L=3, x=0, K=2), need_outcomes=['swapped']))
+        J.append(Job('k7_swap', dict(N=4, L=3, x=1, K=2, by='name'), need_outcomes=['swapped']))
+        if not q:
+            J.append(Job('k7_swap', dict(N=5, L=3, x=0, K=3), need_outcomes=['swapped']))
+            J.append(Job('k7_swap', dict(N=5, L=3, x=1, K=3, by='reversed'), need_outcomes=['swapped']))
     if pid == 'C10':
         J.append(Job('sat', dict(N=4, L=2), need_outcomes=['returned:' + e for e in
                      ('support', 'essential', 'count', 'pick_iter', 'pick')]))
         J.append(Job('sat', dict(N=4 if q else 5, L=3), need_outcomes=['returned:' + e for e in
                      ('support', 'essential', 'count', 'pick_iter', 'pick')]))
+    if pid == 'C11':
+        J.append(Job('copy', dict(N=4, L=2, NT=3, extra=0), need_outcomes=['returned:' + v for v in
+                     ('copy_bdd', 'BDD.copy', '_copy.copy_bdd', '_copy.copy_bdds_from', 'autoref.copy')]))
+        J.append(Job('copy', dict(N=3, L=2, NT=3, extra=1, variants=['copy_bdd', '_copy.copy_bdd']),
+                     need_outcomes=['returned:copy_bdd']))
+        if not q:
+            J.append(Job('copy', dict(N=4, L=3, NT=3, extra=0, variants=['copy_bdd', '_copy.copy_bdd']),
+                         need_outcomes=['returned:copy_bdd']))
+    if pid == 'C13':
+        J.append(Job('image', dict(N=4, L=2, styles=['names']), need_outcomes=['returned:preimage', 'returned:image']))
+        J.append(Job('image', dict(N=3, L=2, styles=['levels']), need_outcomes=['returned:preimage', 'returned:image']))
+        if not q:
+            J.append(Job('image', dict(N=4, L=3, maxpairs=1, styles=['names']),
+                         need_outcomes=['returned:preimage', 'returned:image', 'returned:image_nonadjacent']))
+    if pid == 'C14':
+        J.append(Job('k10_addvar', dict(N=4, L=2), need_outcomes=['added', 'idempotent', 'refused']))
+        J.append(Job('k10_addvar', dict(N=4 if q else 5, L=3), need_outcomes=['added', 'idempotent', 'refused']))
+        J.append(Job('k9_undeclare', dict(N=4, L=3), need_outcomes=['removed', 'nothing_removed', 'refused']))
+        J.append(Job('k9_undeclare', dict(N=3 if q else 5, L=4 if q else 3), need_outcomes=['removed', 'refused']))
     return J
 
 
